@@ -152,15 +152,19 @@ class NetworkXGraphStorageDisjoint:
 
         def extract_graph(self, graph_id: str) -> nx.Graph or None:
             self.lock.acquire()
-            graph = self.graphs[graph_id]
-            self.lock.release()
+            try:
+                graph = self.graphs[graph_id]
+            finally:
+                self.lock.release()
             return graph.copy()
 
         def get_graph(self, graph_id) -> nx.Graph:
             # return the store for this graph
             self.lock.acquire()
-            ret = self.graphs[graph_id]
-            self.lock.release()
+            try:
+                ret = self.graphs[graph_id]
+            finally:
+                self.lock.release()
             return ret
 
         def del_all_graphs(self) -> None:
